@@ -65,6 +65,8 @@ def resq? (t : String) : Option (Nat × Int) :=
 def parseOp (ws : List String) : Option Op :=
   match ws with
   | ["createBatch", u, bp, t] => do pure (.createBatch (← u.toNat?) (← bp.toNat?) (← t.toNat?))
+  -- optional 4th field: the `n_jobs` the client's batch spec announces; `_create_batch` ignores it (the row starts with n_jobs 0, complete)
+  | ["createBatch", u, bp, t, _n] => do pure (.createBatch (← u.toNat?) (← bp.toNat?) (← t.toNat?))
   | ["createUpdate", b, t, nj, ng, u] => do
     pure (.createUpdate (← b.toNat?) (← t.toNat?) (← nj.toNat?) (← ng.toNat?) (← u.toNat?))
   | "insertGroups" :: b :: u :: usr :: specs => do
